@@ -640,6 +640,42 @@ Definition load_dbs (r : lstatus * list db * rd) : list db := snd (fst r).
 Definition load_resv (r : lstatus * list db * rd) : Z := r_resv (snd r).
 
 (** ------------------------------------------------------------------ *)
+(** * Number of write calls of one save (write_raw calls + the final flush): the indices
+      the fail-the-n-th-write hook (patches/hook-rdb-failat.diff) ranges over *)
+Definition calls_length (n : Z) : Z := if n <=? 63 then 1 else 2.
+Definition calls_string (s : bytes) : Z := calls_length (len s) + 1.
+Definition zsum {A} (f : A -> Z) (l : list A) : Z := fold_left (fun acc x => acc + f x) l 0.
+Definition calls_pair (p : bytes * bytes) : Z := calls_string (fst p) + calls_string (snd p).
+Definition calls_value (k : bytes) (v : value) : Z :=
+  1 + calls_string k +
+  match v with
+  | VStr b => calls_string b
+  | VZSet z => calls_length (len z) + zsum (fun p => calls_string (fst p) + 1) z
+  | VStream s => calls_length (stream_items (s_entries s)) + calls_string marker
+                 + zsum (fun e => calls_string (sid_text (fst e)) + calls_string (print_nat (len (snd e)))
+                                  + zsum calls_pair (snd e)) (s_entries s)
+  | VList l => calls_length (len l) + zsum calls_string l
+  | VSet s => calls_length (len s) + zsum calls_string s
+  | VHash h => calls_length (len h) + zsum calls_pair h
+  end.
+Definition calls_key (now : Z) (ke : bytes * entry) : Z :=
+  if expired now (snd ke) then 0
+  else (match e_exp (snd ke) with Some _ => 2 | None => 0 end) + calls_value (fst ke) (e_val (snd ke)).
+Fixpoint calls_dbs (now : Z) (i : Z) (ds : list db) : Z :=
+  match ds with
+  | [] => 0
+  | d :: r =>
+      (match d_data d with
+       | [] => 0
+       | _ => 1 + calls_length i + 1 + 2 * calls_length (len (d_data d)) + zsum (calls_key now) (d_data d)
+       end) + calls_dbs now (i + 1) r
+  end.
+Definition calls_save (ver : bytes) (ctime now : Z) (ds : list db) : Z :=
+  2 + (1 + calls_string (bs "redis-ver") + calls_string ver)
+    + (1 + calls_string (bs "ctime") + calls_string (print_nat ctime))
+    + calls_dbs now 0 ds + 1 + 1 + 1.
+
+(** ------------------------------------------------------------------ *)
 (** * The decidable guard of the round-trip theorem (Props/C09.v) and the dataset a
       restart yields.  The executable tie (Model/RunRdb.v, ISAVE) uses the same guard. *)
 Fixpoint nodupb (l : list bytes) : bool :=
